@@ -567,11 +567,85 @@ def r15_5(ctx) -> None:
                   "self.header_registry = {} ; update(defaults) ; update(caller table) when given", construct="registry merge")
 
 
+def _position_name(txt: str) -> str:
+    return txt.split(".")[-1].lstrip("_")
+
+
+def r15_8(ctx) -> None:
+    """R15.8  the header that is validated is a merged view of the header positions.  The view stands for every position only if no member
+    of one position can hide the member of the same name in another: wherever a `headers()` merge lets a later position overwrite an earlier
+    one (dict.update order) with no refusal of overlapping names in between, the overwritten copy of a registered parameter is never
+    type-checked - yet it is emitted / accepted.  Reported per (shadowed position, shadowing position) pair."""
+    eng = ctx.eng
+    from .common import resolve_all
+    n = 0
+    for fn in eng.prog.all_functions():
+        if fn.name != "headers" or fn.cls is None:
+            continue
+        cfg = cfg_of(fn)
+        ups = []
+        for node in fn_nodes(fn):
+            if isinstance(node, ast.Call) and isinstance(node.func, ast.Attribute) and node.func.attr == "update" and len(node.args) == 1 and isinstance(node.func.value, ast.Name):
+                cn = cfg.node_of(node)
+                if cn is not None:
+                    ups.append((node, cn))
+        if len(ups) < 2:
+            continue
+        ups.sort(key=lambda x: (x[0].lineno, x[0].col_offset))
+        for i, (a, ca) in enumerate(ups):
+            for b, cb in ups[i + 1:] + ups[:i]:
+                if cb not in cfg.reachable(ca) or cb is ca:
+                    continue
+                n += 1
+                pa, pb = _position_name(norm(a.args[0])), _position_name(norm(b.args[0]))
+                # a refusal of overlapping names between the two updates: a test mentioning isdisjoint / an intersection whose bad branch raises
+                refused = False
+                for t in cfg.nodes:
+                    if t.kind == "test" and ("isdisjoint" in norm(t.ast) or " & " in norm(t.ast)) and cfg.dominates(t, cb):
+                        refused = True
+                ctx.check(refused, "R15.8", fn, b, f"{fn.short} :: {pa} then {pb}", f"in the merged header view a member of the `{pa}` position is overwritten by the member of the "
+                          f"same name in the `{pb}` position; only the surviving copy is validated, the hidden one is emitted / accepted unchecked "
+                          f"(e.g. an ill-typed \"kid\" in `{pa}` next to a well-typed one in `{pb}`)",
+                          "refuse overlapping names (RFC 7515 7.2.1 / RFC 7516 7.2.1) or validate each position", construct=f"{pa} header shadowed by {pb} header in {fn.short}")
+    ctx.count("R15.8", n, 4, "ordered pairs of header positions merged by headers()")
+
+
+def r15_9(ctx) -> None:
+    """R15.9  "no unregistered parameter is present": the set of admitted names in check_supported_header comes from the registry given by the
+    caller alone - nothing the header under test says (its crit list, its own keys) can extend it."""
+    eng = ctx.eng
+    from .common import derives_from_param
+    fn = eng.prog.func("registry:check_supported_header")
+    rp, hp = fn.pos_params[0], fn.pos_params[1]
+    n = 0
+    for node in fn_nodes(fn):
+        adm = None
+        if isinstance(node, ast.BinOp) and isinstance(node.op, ast.Sub):
+            adm = node.right
+        elif isinstance(node, ast.Call) and isinstance(node.func, ast.Attribute) and node.func.attr in ("difference", "issubset", "difference_update") and node.args:
+            adm = node.args[0]
+        elif isinstance(node, ast.Compare) and len(node.ops) == 1 and isinstance(node.ops[0], (ast.In, ast.NotIn)) and derives_from_param(eng, fn, node.left, hp):
+            adm = node.comparators[0]
+        elif isinstance(node, ast.Compare) and len(node.ops) == 1 and isinstance(node.ops[0], (ast.LtE, ast.Lt)) and derives_from_param(eng, fn, node.left, hp):
+            adm = node.comparators[0]
+        if adm is None:
+            continue
+        n += 1
+        bad = derives_from_param(eng, fn, adm, hp)
+        good = derives_from_param(eng, fn, adm, rp)
+        ctx.check(good and not bad, "R15.9", fn, node, f"{fn.short} :: admitted names `{norm(adm)}`", f"the set of admitted header names "
+                  f"{'is extended from the header under test' if bad else 'does not come from the registry'}: a parameter can admit itself (e.g. by being listed in crit)",
+                  f"names of `{rp}` only", construct="admitted header names derive from the header under test" if bad else "admitted header names not from the registry")
+    ctx.count("R15.9", n, 1, "admission tests in check_supported_header")
+
+
 def run(ctx) -> None:
     from .common import forwarding_discipline
     ctx.guard(forwarding_discipline, "R15.7", ['registry', 'header', 'protected', 'obj'], 43)  # arguments are handed on under their own name (generic routing rule, rules/common.py)
     from .c04 import r04_4
     ctx.guard_as("R15.6", r04_4)  # what check_header validates is the union of protected, shared unprotected and per-recipient members
+    ctx.guard(r15_8)
+    ctx.guard(r15_9)
     ctx.guard(r15_1)
     ctx.guard(r15_2)
     ctx.guard(r15_3)
